@@ -56,15 +56,20 @@ const MODULE_SETS: &[&[&str]] = &[
 const CONVENTIONS: &[&str] = &["C", "cdecl", "stdcall", "fastcall", "thiscall", "vectorcall", "system"];
 const INT_BASES: &[(&str, u128)] = &[("u8", 1), ("u16", 2), ("u32", 4), ("u64", 8), ("i8", 1), ("i16", 2), ("i32", 4), ("i64", 8)];
 
-fn doc(r: &mut Rng, indent: &str) -> String {
+/// a doc comment (source text) and the doc string it stands for ("line for line and in order")
+fn doc2(r: &mut Rng, indent: &str) -> (String, Option<String>) {
     match r.below(8) {
-        0 => format!("{indent}/// one line\n"),
-        1 => format!("{indent}/// first\n{indent}///\n{indent}/// third\n"),
-        2 => format!("{indent}///\n{indent}/// after an empty line\n"),
-        3 => format!("{indent}/// before an empty line\n{indent}///\n"),
-        _ => String::new(),
+        0 => (format!("{indent}/// one line\n"), Some(" one line".into())),
+        1 => (format!("{indent}/// first\n{indent}///\n{indent}/// third\n"), Some(" first\n\n third".into())),
+        2 => (format!("{indent}///\n{indent}/// after an empty line\n"), Some("\n after an empty line".into())),
+        3 => (format!("{indent}/// before an empty line\n{indent}///\n"), Some(" before an empty line\n".into())),
+        _ => (String::new(), None),
     }
 }
+fn doc(r: &mut Rng, indent: &str) -> String { doc2(r, indent).0 }
+/// item-level expectation (C17 / C15): visibility, marker flags, singleton address, doc string
+#[derive(Clone, Debug)]
+pub struct ItemExp { pub path: String, pub public: bool, pub copyable: bool, pub cloneable: bool, pub defaultable: bool, pub packed: bool, pub singleton: Option<u128>, pub doc: Option<String>, #[allow(dead_code)] pub is_enum: bool }
 fn vis(r: &mut Rng) -> &'static str {
     if r.chance(2, 3) { "pub " } else { "" }
 }
@@ -130,6 +135,9 @@ pub struct Expect {
     pub fns: Vec<(String, Vec<FnExp>, Vec<FnExp>)>,
     /// (enum path, (variant, value) in order, default index)
     pub enums: Vec<(String, Vec<(String, i128)>, Option<usize>)>,
+    pub item_attrs: Vec<ItemExp>,
+    /// (type path, field name, public, doc)
+    pub field_attrs: Vec<(String, String, bool, Option<String>)>,
 }
 fn unraw(s: &str) -> &str { s.strip_prefix("r#").unwrap_or(s) }
 pub fn program(seed: u64, index: u64, ptr: usize) -> Vec<(&'static str, String)> {
@@ -146,6 +154,8 @@ pub fn program_with_expectation(seed: u64, index: u64, ptr: usize) -> (Vec<(&'st
     let mut counter = 0usize;
     let mut exp_fields: Vec<(String, String, u128)> = vec![];
     let mut exp_enums: Vec<(String, Vec<(String, i128)>, Option<usize>)> = vec![];
+    let mut exp_items: Vec<ItemExp> = vec![];
+    let mut exp_field_attrs: Vec<(String, String, bool, Option<String>)> = vec![];
     let n_items = 2 + r.below(6);
     for _ in 0..n_items {
         let m = r.below(mods.len());
@@ -173,13 +183,18 @@ pub fn program_with_expectation(seed: u64, index: u64, ptr: usize) -> (Vec<(&'st
             let defaultable = r.chance(1, 3);
             let default_at = r.below(nv);
             let mut attrs = vec![];
-            if r.chance(1, 3) { attrs.push("copyable".to_string()); }
-            if r.chance(1, 4) { attrs.push("cloneable".to_string()); }
+            let (e_copy, e_clone) = (r.chance(1, 3), r.chance(1, 4));
+            if e_copy { attrs.push("copyable".to_string()); }
+            if e_clone { attrs.push("cloneable".to_string()); }
             if defaultable { attrs.push("defaultable".to_string()); }
-            if r.chance(1, 5) { attrs.push(format!("singleton(0x{:X})", 0x1000 + r.below(0x100000) * 8 + if r.chance(1, 3) { 0x1_4000_0000 } else { 0 })); }
-            out.push_str(&doc(&mut r, ""));
+            let mut e_single: Option<u128> = None;
+            if r.chance(1, 5) { let a: u128 = 0x1000 + (r.below(0x100000) as u128) * 8 + if r.chance(1, 3) { 0x1_4000_0000 } else { 0 }; e_single = Some(a); attrs.push(format!("singleton(0x{:X})", a)); }
+            let (e_doc_text, e_doc) = doc2(&mut r, "");
+            out.push_str(&e_doc_text);
             if !attrs.is_empty() { out.push_str(&format!("#[{}]\n", attrs.join(", "))); }
-            out.push_str(&format!("{}enum {}: {} {{\n", vis(&mut r), name, base));
+            let e_vis = vis(&mut r);
+            out.push_str(&format!("{e_vis}enum {}: {} {{\n", name, base));
+            exp_items.push(ItemExp { path: format!("{}::{}", mods[m], name), public: !e_vis.is_empty(), copyable: e_copy, cloneable: e_copy || e_clone, defaultable, packed: false, singleton: e_single, doc: e_doc, is_enum: true });
             let signed = base.starts_with('i');
             let mut vals: Vec<(String, i128)> = vec![];
             let mut next: i128 = 0;
@@ -235,9 +250,11 @@ pub fn program_with_expectation(seed: u64, index: u64, ptr: usize) -> (Vec<(&'st
                     if s == 0 { continue; }
                     let fname = if r.chance(1, 10) { "r#match".to_string() } else { format!("f{f}") };
                     if specs.iter().any(|x| x.0.contains(&format!(" {fname}:"))) { continue; }
-                    let d = doc(&mut r, "    ");
-                    specs.push((format!("{d}    {}{fname}: {t},\n", vis(&mut r)), s, a, false));
+                    let (d, d_exp) = doc2(&mut r, "    ");
+                    let f_vis = vis(&mut r);
+                    specs.push((format!("{d}    {f_vis}{fname}: {t},\n"), s, a, false));
                     spec_names.push(fname.clone());
+                    exp_field_attrs.push((format!("{}::{}", mods[m], name), fname.clone(), !f_vis.is_empty(), d_exp));
                 }
             }
             let _ = base_vfuncs;
@@ -324,12 +341,24 @@ pub fn program_with_expectation(seed: u64, index: u64, ptr: usize) -> (Vec<(&'st
                 attrs.push(format!("size({})", off + extra));
                 off += extra;
             }
-            if r.chance(1, 4) { attrs.push("copyable".to_string()); }
-            if r.chance(1, 5) { attrs.push("cloneable".to_string()); }
-            if r.chance(1, 6) && off > 0 { attrs.push(format!("singleton(0x{:X})", 0x2000 + r.below(0x100000) * 8 + if r.chance(1, 3) { 0x7FF0_0000_0000 } else { 0 })); }
-            out.push_str(&doc(&mut r, ""));
-            out.push_str(&format!("#[{}]\n", attrs.join(", ")));
-            out.push_str(&format!("{}type {} {{\n{}}}\n", vis(&mut r), name, fields));
+            let (t_copy, t_clone) = (r.chance(1, 4), r.chance(1, 5));
+            if t_copy { attrs.push("copyable".to_string()); }
+            if t_clone { attrs.push("cloneable".to_string()); }
+            let mut t_single: Option<u128> = None;
+            if r.chance(1, 6) && off > 0 { let a: u128 = 0x2000 + (r.below(0x100000) as u128) * 8 + if r.chance(1, 3) { 0x7FF0_0000_0000 } else { 0 }; t_single = Some(a); attrs.push(format!("singleton(0x{:X})", a)); }
+            let (t_doc_text, t_doc) = doc2(&mut r, "");
+            out.push_str(&t_doc_text);
+            // now and then an attribute line comes BEFORE the doc lines (docs are collected wherever they stand)
+            if t_doc.is_some() && r.chance(1, 4) {
+                out.truncate(out.len() - t_doc_text.len());
+                out.push_str(&format!("#[{}]\n", attrs.join(", ")));
+                out.push_str(&t_doc_text);
+            } else {
+                out.push_str(&format!("#[{}]\n", attrs.join(", ")));
+            }
+            let t_vis = vis(&mut r);
+            out.push_str(&format!("{t_vis}type {} {{\n{}}}\n", name, fields));
+            exp_items.push(ItemExp { path: format!("{}::{}", mods[m], name), public: !t_vis.is_empty(), copyable: t_copy, cloneable: t_copy || t_clone, defaultable: false, packed, singleton: t_single, doc: t_doc, is_enum: false });
             // ---- what the bases re-expose (C07): public associated functions of every base, public virtual functions of
             // every base but the first; a taken name becomes <field>_<name>; a function without a receiver keeps its body
             let mut my_assoc: Vec<FnExp> = vec![];
@@ -398,5 +427,5 @@ pub fn program_with_expectation(seed: u64, index: u64, ptr: usize) -> (Vec<(&'st
     }
     let items = known.iter().map(|k| (format!("{}::{}", mods[k.module], k.name), k.size, k.align)).collect();
     let fns = known.iter().filter(|k| k.is_struct).map(|k| (format!("{}::{}", mods[k.module], k.name), k.assoc.clone(), k.vfs.clone())).collect();
-    (res, Expect { items, fields: exp_fields, fns, enums: exp_enums })
+    (res, Expect { items, fields: exp_fields, fns, enums: exp_enums, item_attrs: exp_items, field_attrs: exp_field_attrs })
 }
